@@ -87,9 +87,18 @@ class Unit:
         cmd = ['clang++'] + CLANG_FLAGS + self.cfg.get('cxxflags', []) + \
               ['-I' + os.path.join(REPO, 'include'), '-I' + os.path.join(VERIF, 'units', 'config'), '-I' + self.dir,
                self.source(), '-o', ll]
+        if self.cfg.get('mem2reg'):
+            cmd[1:1] = ['-Xclang', '-disable-O0-optnone']
         rc, out, _ = run(cmd, timeout=900, mem=False)
         if rc != 0:
             raise Fault('clang failed on unit %s:\n%s' % (self.name, out[-3000:]))
+        if self.cfg.get('mem2reg'):
+            # promote allocas to SSA registers (no other optimisation): far fewer memory accesses for the checker
+            ll0 = os.path.join(w, 'unit_O0.ll')
+            os.rename(ll, ll0)
+            rc, out, _ = run(['opt', '-S', '-passes=mem2reg', ll0, '-o', ll], timeout=900, mem=False)
+            if rc != 0:
+                raise Fault('opt -passes=mem2reg failed on unit %s:\n%s' % (self.name, out[-3000:]))
         ov = os.path.join(w, 'override.json')
         json.dump(self.cfg.get('override', {}), open(ov, 'w'))
         loops = os.path.join(self.dir, 'loops.json')
@@ -141,7 +150,7 @@ class Unit:
             exe = os.path.join(self.work, 'replay')
             srcs = [os.path.join(REPO, s) for s in self.cfg.get('replay_sources', [])]
             cmd = ['g++', '-std=c++14', '-O1', '-DNDEBUG', '-w', '-fno-access-control', '-fpermissive', '-I' + os.path.join(REPO, 'include'),
-                   '-I' + os.path.join(VERIF, 'units', 'config'), '-I' + os.path.join(VERIF, 'tools'), '-I' + self.dir, '-I' + self.work,
+                   '-I' + os.path.join(VERIF, 'units', 'config'), '-I' + os.path.join(VERIF, 'tools'), '-I' + os.path.join(VERIF, 'models'), '-I' + self.dir, '-I' + self.work,
                    rp] + srcs + ['-o', exe, '-lgmp']
             rc, out, _ = run(cmd, timeout=1200, mem=False)
             if rc != 0:
@@ -324,7 +333,7 @@ def compile_and_instrument(chk, r, tier, inline_all=False, loop_contracts=None):
     if re.search(r'conflicting|duplicate definition', out):
         raise Fault('goto-cc reports conflicting declarations for %s/%s:\n%s' % (unit.name, chk.id, out[-3000:]))
     inst = os.path.join(d, 'inst.gb')
-    cmd = ['goto-instrument', '--dfcc', chk.harness, '--enforce-contract', chk.fn]
+    cmd = ['goto-instrument', '--dfcc', chk.harness, '--enforce-contract-rec' if chk.get('rec', tier) == '1' else '--enforce-contract', chk.fn]
     repl = [x for x in (chk.get('replace', tier) or '').split(',') if x]
     if not inline_all:
         for g in repl:
@@ -492,6 +501,11 @@ def _run_property(args, prop, tier, work, outdir, t0):
         if not os.path.exists(os.path.join(VERIF, 'units', name, 'unit.json')):
             continue
         if args.unit and name != args.unit:
+            continue
+        cpath = os.path.join(VERIF, 'units', name, 'contracts.c')
+        if not os.path.exists(cpath):
+            continue
+        if not re.search(r'//@check[^\n]*\bprops=[\w,]*\b' + re.escape(prop) + r'\b', open(cpath).read()):
             continue
         u = Unit(name, work)
         if any(prop in c.props for c in u.checks):
